@@ -4,6 +4,8 @@ import torch
 
 # Verification hook (active only when CAYLEYPY_VERIF=1): events observed inside the library.
 VERIF_EVENTS: list = []
+# Verification hook (read only when CAYLEYPY_VERIF=1): scaled-down constants, e.g. {"default_batch_size": 3}.
+VERIF_KNOBS: dict = {}
 
 
 def isin_via_searchsorted(elements: torch.Tensor, test_elements_sorted: torch.Tensor):
